@@ -373,6 +373,19 @@ def euler_class(q):
     return "gimbal0" if q_bc < 1e-9 else "gimbalpi"
 
 
+ROT_TOL = 1e-9
+
+
+def misorientation_angle(a, b):
+    """angle (rad) of the rotation a * conj(b) of two unit quaternions, accurate for small angles"""
+    a0, a1, a2, a3 = a
+    b0, b1, b2, b3 = b
+    w = a0 * b0 + a1 * b1 + a2 * b2 + a3 * b3
+    v = (-a0 * b1 + a1 * b0 - a2 * b3 + a3 * b2, -a0 * b2 + a2 * b0 - a3 * b1 + a1 * b3,
+         -a0 * b3 + a3 * b0 - a1 * b2 + a2 * b1)
+    return 2 * math.atan2(math.sqrt(v[0] ** 2 + v[1] ** 2 + v[2] ** 2), abs(w))
+
+
 def arr_same(a, b):
     return a["dt"] == b["dt"] and a["sh"] == b["sh"] and a["cls"] == b["cls"] and (
         np.allclose(a["d"], b["d"], rtol=0, atol=0, equal_nan=True) if a["cls"] == "F" else a["d"] == b["d"])
@@ -401,8 +414,8 @@ def compare(m0, m1, pre, rep):
     if len(m0["q"]) == len(m1["q"]):
         seen = set()
         for i, (a, b) in enumerate(zip(m0["q"], m1["q"])):
-            a = np.array(a) / np.linalg.norm(a)
-            b = np.array(b) / np.linalg.norm(b)
+            a = np.array(a, float) / np.linalg.norm(a)
+            b = np.array(b, float) / np.linalg.norm(b)
             if abs(abs(float(a @ b)) - 1) > 1e-7:
                 cause = "eu:" + euler_class(a)
                 if any(k in m0["props"] for k in ("phi1", "Phi", "phi2")):
@@ -411,6 +424,17 @@ def compare(m0, m1, pre, rep):
                     seen.add(cause)
                     fail(pre + f"rot:{cause}", f"rotation {i} ({a.tolist()}) is another rotation after the round trip "
                          f"({b.tolist()})", rep)
+            elif misorientation_angle(a, b) > ROT_TOL:
+                # the dot-product test above only sees angles > ~1e-3 rad; binary64 Euler angles reproduce the
+                # rotation to ~2e-15 rad (measured on 2e5 rotations, Phi down to 1e-8 from 0 and pi)
+                cause = "eu:gimbalpi" if euler_class(a) == "gimbalpi" else "precision"
+                if any(k in m0["props"] for k in ("phi1", "Phi", "phi2")):
+                    cause = "prop-reserved"
+                if cause not in seen:
+                    seen.add(cause)
+                    fail(pre + f"rot:{cause}", f"rotation {i} ({a.tolist()}) comes back rotated by "
+                         f"{misorientation_angle(a, b):.3e} rad ({b.tolist()}); stored binary64 Euler angles give "
+                         f"< 1e-14 rad", rep)
             if m0["imp"][i] != m1["imp"][i] and "imp" not in seen:
                 seen.add("imp")
                 cause = "prop-reserved" if "improper" in m0["props"] else "improper-lost"
@@ -577,6 +601,552 @@ def canon_colors(names):
     return out
 
 
+# ------------------------------------------------------------------ extra oracle strata
+# Oracle only (no correspondence case): entry points / keyword paths / input classes / histories that gen_spec does
+# not reach.  Every stratum calls the real orix.io.save / orix.io.load, compares with compare() (signatures prefixed
+# with the stratum) and with a bit-exact numpy comparison where compare() is too coarse.  None of the inputs lies in
+# the stratum of a known finding (>= 2 points, some point in data, no Phi = pi, no reserved names, every listed
+# phase used, listed point groups only).
+import itertools  # noqa: E402
+import json  # noqa: E402
+from pathlib import Path  # noqa: E402
+
+
+def jrec(m):
+    return json.dumps(m, sort_keys=True, default=str)
+
+
+def clean_spec(k, dims=None):
+    while True:
+        s = gen_spec(k)
+        if s["hostile"] is None and (dims is None or len(s["shape"]) == dims):
+            return s
+
+
+def plain_quats(n, kinds=("generic", "generic", "neg", "nonunit", "gimbal0", "neargimbal", "identity")):
+    return np.array([gen_quat(kinds[i % len(kinds)]) for i in range(n)], float)
+
+
+def partial_mask(n, i):
+    """deterministic in-data masks with at least one point in and (n >= 2) one point out"""
+    m = np.array([(j * 7 + i) % 3 != 0 for j in range(n)])
+    m[i % n] = True
+    m[(i + 1) % n] = False
+    return m
+
+
+def cycle(x, pre, rep, second=True, tag="extra"):
+    """io.save / io.load through the primary entry point + compare(); -> (record before, loaded map, its record)"""
+    fn = os.path.join(TMP, f"c13_{os.getpid()}_{tag}.h5")
+    m0 = map_rec(x)
+    k0 = len(fails)
+    try:
+        try:
+            io.save(fn, x, overwrite=True)
+        except Exception as e:  # noqa
+            fail(pre + "save:exception:" + type(e).__name__, f"saving raises {type(e).__name__}: {str(e)[:160]}", rep)
+            return None
+        if jrec(map_rec(x)) != jrec(m0):
+            fail(pre + "save:mutates", "saving modified the map in memory", rep)
+        try:
+            y = io.load(fn)
+        except Exception as e:  # noqa
+            tb = traceback.extract_tb(e.__traceback__)[-1]
+            fail(pre + "load:exception:" + type(e).__name__, f"loading the saved map raises {type(e).__name__}: "
+                 f"{str(e)[:160]} ({os.path.basename(tb.filename)}:{tb.lineno})", rep)
+            return None
+        m1 = map_rec(y)
+        compare(m0, m1, pre, rep)
+        if second:
+            try:
+                io.save(fn, y, overwrite=True)
+                compare(m1, map_rec(io.load(fn)), pre + "cycle2:", rep)
+            except Exception as e:  # noqa
+                fail(pre + "cycle2:exception:" + type(e).__name__, f"second save/load cycle raises "
+                     f"{type(e).__name__}: {str(e)[:160]}", rep)
+        return m0, y, m1
+    finally:
+        seen, keep = set(), []
+        for f in fails[k0:]:                      # one report per signature and map
+            if f["sig"] not in seen:
+                seen.add(f["sig"])
+                keep.append(f)
+        fails[k0:] = keep
+        if os.path.exists(fn):
+            os.remove(fn)
+
+
+def bits_same(a, b):
+    """same kind, item size, shape and the same bits (NaN payloads, signed zeros; byte order normalised)"""
+    a, b = np.asarray(a), np.asarray(b)
+    if a.dtype.kind != b.dtype.kind or a.dtype.itemsize != b.dtype.itemsize or a.shape != b.shape:
+        return False
+    na = np.ascontiguousarray(a).astype(a.dtype.newbyteorder("="))
+    nb = np.ascontiguousarray(b).astype(b.dtype.newbyteorder("="))
+    return na.tobytes() == nb.tobytes()
+
+
+# ---- 1. entry points and keyword paths -------------------------------------------------------------------------
+def big_map():
+    d, _ = create_coordinate_arrays((30, 40), (0.5, 0.5))
+    n = 1200
+    pid = np.array([(1 if (j // 7) % 3 else 4) for j in range(n)])
+    pl = PhaseList({1: Phase("austenite", space_group=225, color="tab:blue"),
+                    4: Phase("ferrite", point_group="m-3m", color="tab:orange")})
+    q = plain_quats(2 * n).reshape(n, 2, 4)
+    return CrystalMap(Rotation(q), phase_id=pid, x=d["x"], y=d["y"], phase_list=pl, scan_unit="um",
+                      prop={"iq": np.arange(n) * 0.37, "grain": np.arange(n) // 50,
+                            "scores": np.arange(2 * n, dtype="float32").reshape(n, 2)}, is_in_data=partial_mask(n, 5))
+
+
+def stratum_entry():
+    from orix.io.plugins import orix_hdf5
+    os.makedirs(os.path.join(TMP, "d.ir"), exist_ok=True)
+    base = f"c13_{os.getpid()}_entry"
+    namers = [("name-str-h5", lambda: os.path.join(TMP, base + ".h5")),
+              ("name-path-hdf5", lambda: Path(TMP) / (base + ".hdf5")),
+              ("name-dotted", lambda: os.path.join(TMP, base + ".v1.2.h5")),
+              ("name-upper-HDF5", lambda: os.path.join(TMP, base + ".HDF5")),
+              ("name-path-dotdir", lambda: Path(TMP) / "d.ir" / (base + ".h5"))]
+    savers = [("save-overwrite-true", lambda fn, x, kw: io.save(fn, x, overwrite=True, **kw)),
+              ("save-overwrite-false", lambda fn, x, kw: io.save(fn, x, overwrite=False, **kw)),
+              ("save-overwrite-default", lambda fn, x, kw: io.save(fn, x, **kw)),
+              ("plugin-file_writer", lambda fn, x, kw: orix_hdf5.file_writer(fn, x, **kw))]
+    skws = [("nokw", {}), ("gzip", {"compression": "gzip", "compression_opts": 4}),
+            ("chunks-shuffle-fletcher32", {"chunks": True, "shuffle": True, "fletcher32": True}),
+            ("track_times-off", {"track_times": False})]
+    loaders = [("load", lambda fn: io.load(fn)), ("load-mode-r+", lambda fn: io.load(fn, mode="r+")),
+               ("load-driver-core", lambda fn: io.load(fn, driver="core", backing_store=False)),
+               ("plugin-file_reader", lambda fn: orix_hdf5.file_reader(fn))]
+    maps = []
+    for j in range(4):
+        s = clean_spec(j, dims=1 + j % 2)
+        x = build(s)
+        r = cycle(x, "entry:primary:", {"stratum": "entry", "map_spec": s}, tag="entryp")
+        if r is not None:
+            maps.append(({"map_spec": s}, x, jrec(r[2])))
+    x = big_map()
+    r = cycle(x, "entry:big:", {"stratum": "entry", "map": "big_map() of tools/impl/c13.py: 30x40 grid, 2 rotations "
+                                "per point, 2 phases, 3 properties, partial mask"}, tag="entryp")
+    if r is not None:
+        maps.append(({"map": "big_map()"}, x, jrec(r[2])))
+    if not maps:
+        return
+    combos = [c for c in itertools.product(range(4), range(4), range(4), range(5))
+              if sum(1 for v in c if v) <= 2]
+    combos += [(1 + i % 3, 1 + (i // 3) % 3, 1 + (i // 9) % 3, 1 + i % 4) for i in range(12)]
+    combos.sort(key=lambda c: sum(1 for v in c if v))
+    failed_labels = set()
+    for i, (a, b, c, d) in enumerate(combos):
+        labels = [savers[a][0], skws[b][0], loaders[c][0], namers[d][0]]
+        nondef = [lab for lab, v in zip(labels, (a, b, c, d)) if v]
+        if any(lab in failed_labels for lab in nondef):
+            continue
+        desc, x, ref = maps[i % len(maps)]
+        fn = namers[d][1]()
+        rep = dict(desc, stratum="entry", save=labels[0], save_kwargs=skws[b][1], load=labels[2], filename=str(fn),
+                   filename_type=type(fn).__name__)
+        sig = "entry:" + ("+".join(nondef) if nondef else "default")
+        st("entry:" + "+".join(nondef[:1] or ["default"]))
+        try:
+            if os.path.exists(fn):
+                os.remove(fn)
+            savers[a][1](fn, x, dict(skws[b][1]))
+            if not os.path.isfile(fn):
+                fail(sig + ":no-file", f"{labels[0]}({fn!r}) wrote no file", rep)
+                failed_labels.update(nondef)
+                continue
+            y = loaders[c][1](fn)
+            if jrec(map_rec(y)) != ref:
+                m1, mr = map_rec(y), json.loads(ref)
+                diff = [f for f in m1 if jrec(m1[f]) != jrec(mr[f])]
+                fail(sig, f"the map loaded through {'/'.join(labels)} differs from the one loaded through the plain "
+                     f"io.save(str, overwrite=True)/io.load(str) in the fields {diff}", rep)
+                failed_labels.update(nondef)
+        except Exception as e:  # noqa
+            fail(sig + ":raises:" + type(e).__name__, f"{'/'.join(labels)} raises {type(e).__name__}: "
+                 f"{str(e)[:160]}", rep)
+            failed_labels.update(nondef)
+        finally:
+            if os.path.exists(fn):
+                os.remove(fn)
+    # a file that already holds ANOTHER map is replaced, not merged
+    fn = os.path.join(TMP, base + "_ow.h5")
+    try:
+        for i in range(len(maps)):
+            (da, xa, _), (db, xb, refb) = maps[i], maps[(i + 1) % len(maps)]
+            st("entry:overwrite-other")
+            rep = {"stratum": "entry", "first": da, "then": db}
+            try:
+                io.save(fn, xa, overwrite=True)
+                io.save(fn, xb, overwrite=True)
+                if jrec(map_rec(io.load(fn))) != refb:
+                    fail("entry:overwrite-other", "saving a map over a file holding another map and loading it does "
+                         "not give the second map", rep)
+            except Exception as e:  # noqa
+                fail("entry:overwrite-other:raises:" + type(e).__name__, f"saving over a file holding another map "
+                     f"raises {type(e).__name__}: {str(e)[:160]}", rep)
+    finally:
+        if os.path.exists(fn):
+            os.remove(fn)
+
+
+# ---- 2. property dtypes, special values, memory layouts ---------------------------------------------------------
+XDTYPES = ["float16", "float32", "float64", "complex64", "complex128", "int8", "int16", "int32", "int64", "uint8",
+           "uint16", "uint32", "uint64", "bool", ">f8", ">f4", ">i4", ">u2", ">c16"]
+XLAYOUTS = ["plain", "strided-view", "reversed-view", "fortran-n-by-3", "three-axes", "n-by-1-by-2", "readonly"]
+
+
+def special_values(dt, cnt):
+    dt = np.dtype(dt)
+    if dt.kind == "f":
+        fi = np.finfo(dt)
+        sp = [float("nan"), float("inf"), float("-inf"), -0.0, 0.0, float(fi.tiny) / 4, float(fi.max), float(-fi.max),
+              float(fi.eps), 1.0 / 3]
+        vals = [sp[j] if j < len(sp) else R.uniform(-1e3, 1e3) for j in range(cnt)]
+    elif dt.kind == "c":
+        sp = [complex(float("nan"), 1.0), complex(-0.0, -0.0), complex(float("inf"), float("-inf")), 1j, -1.5 + 2.25j]
+        vals = [sp[j] if j < len(sp) else complex(R.uniform(-9, 9), R.uniform(-9, 9)) for j in range(cnt)]
+    elif dt.kind == "b":
+        vals = [(j * 5) % 3 == 0 for j in range(cnt)]
+    else:
+        ii = np.iinfo(dt)
+        sp = [ii.max, ii.min, 0, 1, ii.max - 1, ii.min + 1, ii.max // 2 + 1]
+        vals = [sp[j] if j < len(sp) else R.randrange(ii.min, ii.max + 1) for j in range(cnt)]
+    with np.errstate(all="ignore"):
+        return np.array(vals).astype(dt)
+
+
+def laid_out(dt, layout, n):
+    """-> property array of first axis n in the given memory layout"""
+    if layout == "plain":
+        return special_values(dt, n)
+    if layout == "strided-view":
+        return special_values(dt, 3 * n).reshape(n, 3)[:, 1]
+    if layout == "reversed-view":
+        return special_values(dt, n)[::-1]
+    if layout == "fortran-n-by-3":
+        return np.asfortranarray(special_values(dt, 3 * n).reshape(n, 3))
+    if layout == "three-axes":
+        return special_values(dt, 6 * n).reshape(n, 2, 3)
+    if layout == "n-by-1-by-2":
+        return special_values(dt, 2 * n).reshape(n, 1, 2)
+    a = special_values(dt, n)
+    a.setflags(write=False)
+    return a
+
+
+def stratum_prop_dtype():
+    for i in range(len(XLAYOUTS)):
+        n = [2, 3, 5, 8, 4, 6, 12][i % 7]
+        lay = {dt: XLAYOUTS[(i + j) % len(XLAYOUTS)] for j, dt in enumerate(XDTYPES)}
+        props = {"p_" + dt.replace(">", "be_"): laid_out(dt, lay[dt], n) for dt in XDTYPES}
+        mask = None if i % 2 == 0 else partial_mask(n, i)
+        k = [0, 2, 0, 1][i % 4]
+        q = plain_quats(n * max(k, 1))
+        x = CrystalMap(Rotation(q.reshape(n, k, 4) if k else q), prop=props, is_in_data=mask,
+                       phase_id=np.array([j % 2 for j in range(n)]))
+        rep = {"stratum": "propdtype", "n": n, "rotations_per_point": k, "mask": None if mask is None else mask.tolist(),
+               "layouts": lay, "values": {kk: arr_rec(v)["d"] for kk, v in props.items()}}
+        orig = {kk: np.array(v, copy=True) for kk, v in props.items()}
+        r = cycle(x, "propdtype:", rep, second=False, tag="pdt")
+        for dt in XDTYPES:                        # every dtype meets every layout once over the len(XLAYOUTS) maps
+            st("propdtype:" + dt)
+            st("proplayout:" + lay[dt])
+        if r is None:
+            continue
+        y = r[1]
+        for dt in XDTYPES:
+            kk = "p_" + dt.replace(">", "be_")
+            if kk not in dict.keys(y._prop):
+                fail(f"propdtype:{dt}:{lay[dt]}:missing", f"property of dtype {dt} ({lay[dt]}) is missing", rep)
+                continue
+            b = dict.__getitem__(y._prop, kk)
+            if not bits_same(orig[kk], b):
+                fail(f"propdtype:{dt}:{lay[dt]}", f"property of dtype {dt}, layout {lay[dt]}, shape {orig[kk].shape} "
+                     f"comes back as dtype {np.asarray(b).dtype}, shape {np.shape(b)} or with other bits "
+                     f"(NaN / inf / signed zero / extreme values included)", rep)
+            if not bits_same(orig[kk], dict.__getitem__(x._prop, kk)):
+                fail(f"propdtype:{dt}:{lay[dt]}:save-mutates", f"saving changed the property of dtype {dt} in memory", rep)
+
+
+# ---- 3. coordinate arrays ---------------------------------------------------------------------------------------
+def stratum_coords():
+    def grid(r, c, fx, fy):
+        rows, cols = np.indices((r, c))
+        return fx(cols.ravel()), fy(rows.ravel())
+    variants = [
+        ("x-offset", lambda n: (10 + np.arange(n) * 0.5, None)),
+        ("x-negative", lambda n: (-3 + np.arange(n) * 1.0, None)),
+        ("y-only-offset", lambda n: (None, 7.5 + np.arange(n) * 0.25)),
+        ("x-float32", lambda n: (np.arange(n, dtype="float32") * 0.5, None)),
+        ("x-int32", lambda n: (np.arange(n, dtype="int32") * 2, None)),
+        ("x-uint8", lambda n: (np.arange(n, dtype="uint8"), None)),
+        ("column-x-zero", lambda n: (np.zeros(n), np.arange(n) * 1.0)),
+        ("row-y-constant-nonzero", lambda n: (np.arange(n) * 1.0, np.full(n, 2.5))),
+        ("x-strided-view", lambda n: (np.arange(2 * n)[::2] * 1.0, None)),
+        ("x-descending", lambda n: (np.arange(n)[::-1] * 1.5, None)),
+        ("x-scattered", lambda n: (np.array([0.3, 2.2, 0.9, 5.5, 4.1, 3.3, 7.0, 6.2])[:n], None)),
+        ("grid-offset", lambda n: grid(n // 2, 2, lambda c: 5 + c * 0.5, lambda r: -2 + r * 1.5)),
+        ("grid-int", lambda n: grid(2, n // 2, lambda c: c * 3, lambda r: r * 2)),
+        ("grid-column-major", lambda n: grid(n // 2, 2, lambda c: c * 1.0, lambda r: r * 1.0)[::-1]),
+        ("grid-n-by-1", lambda n: grid(n, 1, lambda c: c * 1.0, lambda r: r * 0.5)),
+        ("grid-float32-xy", lambda n: grid(2, n // 2, lambda c: (c * 0.25).astype("float32"),
+                                           lambda r: (r * 0.25).astype("float32"))),
+    ]
+    for i, (name, f) in enumerate(variants):
+        for mm in range(2):
+            n = [4, 6, 8][(i + mm) % 3]
+            xx, yy = f(n)
+            mask = None if mm == 0 else partial_mask(n, i)
+            k = [0, 2][(i // 2 + mm) % 2]
+            q = plain_quats(n * max(k, 1))
+            x = CrystalMap(Rotation(q.reshape(n, k, 4) if k else q), x=xx, y=yy, is_in_data=mask,
+                           prop={"iq": np.arange(n) * 1.0})
+            pre = f"coords:{name}:"
+            rep = {"stratum": "coords", "variant": name, "x": None if xx is None else arr_rec(xx),
+                   "y": None if yy is None else arr_rec(yy), "mask": None if mask is None else mask.tolist(),
+                   "rotations_per_point": k}
+            st(pre + ("masked" if mm else "full"))
+            before = (x.shape, x.dx, x.dy)
+            r = cycle(x, pre, rep, second=(mm == 1), tag="coo")
+            if r is None:
+                continue
+            y = r[1]
+            for cname, a0, a1 in (("x", x._x, y._x), ("y", x._y, y._y)):
+                if (a0 is None) != (a1 is None) or (a0 is not None and (not bits_same(a0, a1) or a0.dtype != a1.dtype)):
+                    fail(pre + cname, f"{cname} coordinates {None if a0 is None else (str(a0.dtype), a0.tolist())} come "
+                         f"back as {None if a1 is None else (str(a1.dtype), np.asarray(a1).tolist())}", rep)
+            after = (y.shape, y.dx, y.dy)
+            if before != after:
+                fail(pre + "shape-steps", f"(shape, dx, dy) {before} became {after}", rep)
+
+
+# ---- 4. every space group and every listed point group, many phases in one map -----------------------------------
+def stratum_sym_all():
+    def many(name, phases, ids):
+        pl = PhaseList(dict(zip(ids, phases)))
+        n = len(ids)
+        x = CrystalMap(Rotation(plain_quats(n)), phase_id=np.array(ids), phase_list=pl,
+                       is_in_data=partial_mask(n, 3))
+        st("symall:" + name)
+        cycle(x, "symall:", {"stratum": "symall", "variant": name, "ids": list(ids),
+                             "phases": [[p.name, None if p.space_group is None else p.space_group.number,
+                                         None if p.point_group is None else p.point_group.name] for p in phases]},
+              second=False, tag="sym")
+    sgs = list(range(1, 231))
+    many("space-groups-1-230", [Phase(name="sg%d" % i, space_group=i, color=COLORS[i % len(COLORS)]) for i in sgs],
+         [3 * i + 2 for i in sgs])
+    gs = list(osym._groups)
+    many("point-groups-by-object", [Phase(name="pg " + g.name, point_group=g) for g in gs],
+         [len(gs) - j for j in range(len(gs))])
+    many("point-groups-by-name", [Phase(name=g.name, point_group=g.name) for g in gs], list(range(len(gs))))
+    both = [i for i in sgs if osym.get_point_group(i).name in PGS]
+    many("space-group-and-own-point-group",
+         [Phase(name="b%d" % i, space_group=i, point_group=osym.get_point_group(i).name) for i in both[::3]],
+         list(range(10, 10 + len(both[::3]))))
+
+
+# ---- 5. not-indexed points only / phases and not-indexed points only outside the data ---------------------------
+def stratum_not_indexed():
+    pl2 = lambda: PhaseList({2: Phase("a", point_group="m-3m"), 7: Phase("b", space_group=194)})  # noqa
+    d, _ = create_coordinate_arrays((2, 3), (1.5, 1.5))
+
+    def v_all_1d():
+        return CrystalMap(Rotation(plain_quats(4)), phase_id=-np.ones(4))
+
+    def v_all_2d_masked():
+        return CrystalMap(Rotation(plain_quats(6)), phase_id=-np.ones(6), x=d["x"], y=d["y"],
+                          is_in_data=np.array([1, 1, 0, 1, 1, 0], bool), prop={"iq": np.arange(6.0)})
+
+    def v_all_with_phase_list():
+        return CrystalMap(Rotation(plain_quats(5)), phase_id=-np.ones(5), phase_list=pl2())
+
+    def v_all_k2():
+        return CrystalMap(Rotation(plain_quats(6).reshape(3, 2, 4)), phase_id=np.full(3, -1))
+
+    def v_ni_only_masked_out():
+        return CrystalMap(Rotation(plain_quats(6)), phase_id=np.array([2, -1, 7, 2, -1, 7]), phase_list=pl2(),
+                          is_in_data=np.array([1, 0, 1, 1, 0, 1], bool))
+
+    def v_phase_only_masked_out():
+        return CrystalMap(Rotation(plain_quats(6)), phase_id=np.array([2, 7, 2, 2, 7, -1]), phase_list=pl2(),
+                          is_in_data=np.array([1, 0, 1, 1, 0, 1], bool))
+
+    def v_only_ni_in_data():
+        return CrystalMap(Rotation(plain_quats(6)), phase_id=np.array([2, -1, 7, 2, -1, 7]), phase_list=pl2(),
+                          is_in_data=np.array([0, 1, 0, 0, 1, 0], bool))
+
+    def v_set_later():
+        x = CrystalMap(Rotation(plain_quats(6)), phase_id=np.array([2, 7, 2, 7, 2, 7]), phase_list=pl2(),
+                       prop={"iq": np.arange(6.0)})
+        x[x.iq > 3].phase_id = -1
+        return x
+    for name, f in [("all-1d", v_all_1d), ("all-2d-masked", v_all_2d_masked), ("all-with-phase-list", v_all_with_phase_list),
+                    ("all-two-rotations-per-point", v_all_k2), ("not-indexed-only-outside-data", v_ni_only_masked_out),
+                    ("phase-only-outside-data", v_phase_only_masked_out), ("only-not-indexed-in-data", v_only_ni_in_data),
+                    ("set-through-masked-view", v_set_later)]:
+        st("notindexed:" + name)
+        x = f()
+        cycle(x, f"notindexed:{name}:", {"stratum": "notindexed", "variant": name, "phase_id": x._phase_id.tolist(),
+                                         "is_in_data": x.is_in_data.tolist(),
+                                         "how": "stratum_not_indexed() of tools/impl/c13.py"}, tag="ni")
+
+
+# ---- 6. rotation arrays with three and more axes, size-1 axes, subclasses of Rotation, integer quaternions ------
+def stratum_rotshape():
+    from orix.quaternion import Misorientation, Orientation
+    shapes = [(4, 2, 3), (3, 1, 2), (5, 2, 1), (2, 2, 2, 2), (6, 1, 1), (3, 4), (7,)]
+    classes = ["Rotation", "Orientation-m-3m", "Misorientation-432-622", "Rotation-from-int", "Rotation-from-float32"]
+    for i, sh in enumerate(shapes):
+        for j in range(2):
+            cls = classes[(i + 2 * j) % len(classes)] if j else classes[0]
+            imp_mode = ["none", "some", "all"][(i + j) % 3]
+            n = sh[0]
+            cnt = int(np.prod(sh))
+            if cls == "Rotation-from-int":
+                pool = [[1, 0, 0, 0], [0, 0, 0, 1], [1, 0, 0, 1], [1, 1, 1, 1], [2, 0, 0, -1], [-1, 1, 0, 0], [3, -1, 2, 1]]
+                q = np.array([pool[(t + i) % len(pool)] for t in range(cnt)], dtype=int).reshape(sh + (4,))
+            else:
+                q = plain_quats(cnt).reshape(sh + (4,))
+                if cls == "Rotation-from-float32":
+                    q = q.astype("float32")
+            if cls.startswith("Orientation"):
+                rot = Orientation(q, symmetry=osym.Oh)
+            elif cls.startswith("Misorientation"):
+                rot = Misorientation(q, symmetry=(osym.O, osym.D6))
+            else:
+                rot = Rotation(q)
+            imp = np.zeros(sh, bool)
+            if imp_mode == "some":
+                imp.reshape(-1)[::2] = True
+            elif imp_mode == "all":
+                imp[...] = True
+            if imp_mode != "none":
+                rot.improper = imp
+            mask = None if (i + j) % 2 == 0 else partial_mask(n, i)
+            x = CrystalMap(rot, is_in_data=mask, phase_id=np.array([t % 2 for t in range(n)]),
+                           prop={"iq": np.arange(n) * 1.0})
+            name = f"{len(sh)}-axes" + ("-size1" if 1 in sh[1:] else "") + ":" + cls
+            st("rotshape:" + name + ":improper-" + imp_mode)
+            cycle(x, f"rotshape:{name}:", {"stratum": "rotshape", "shape": list(sh), "class": cls, "improper": imp_mode,
+                                           "quaternions": np.asarray(rot.data, float).reshape(-1, 4).tolist(),
+                                           "mask": None if mask is None else mask.tolist()}, tag="rsh")
+
+
+# ---- 7. histories: maps obtained by slicing / copying / modifying / loading, not straight from the constructor ---
+def stratum_history():
+    def base(i):
+        r, c = [(3, 4), (4, 5), (2, 6)][i % 3]
+        n = r * c
+        d, _ = create_coordinate_arrays((r, c), [(1.5, 1.5), (0.5, 2), (1, 1)][i % 3])
+        k = [0, 2][i % 2]
+        q = plain_quats(n * max(k, 1))
+        pl = PhaseList({1: Phase("alpha", point_group="m-3m", color="r"),
+                        3: Phase("beta", space_group=[194, 62, 225][i % 3], color="lime",
+                                 structure=Structure(atoms=[Atom("Ti", [0, 0, 0.25])], lattice=Lattice(3, 3, 4.7, 90, 90, 120)))})
+        return CrystalMap(Rotation(q.reshape(n, k, 4) if k else q), phase_id=np.array([1, 3, 3] * n)[:n], x=d["x"], y=d["y"],
+                          phase_list=pl, prop={"iq": np.arange(n) * 1.0, "grain": np.arange(n) % 4}, scan_unit="um")
+
+    def h_reloaded_sliced(m):
+        r = cycle(m, "history:reloaded-then-sliced:first:", {"stratum": "history"}, second=False, tag="hist0")
+        return None if r is None else r[1][1:, 1:3]
+
+    def h_modified(m):
+        m.prop["added"] = np.arange(m.size) * 2
+        m.added = np.arange(m.size) * 3
+        m.scan_unit = "nm"
+        m.phases[1].name = "renamed"
+        m.phases[1].color = "xkcd:sky blue"
+        m.phases[3].space_group = 229
+        m.phases[1].point_group = "6/mmm"
+        m[m.iq > m.size - 3].phase_id = -1
+        return m
+
+    def h_empty(m):
+        e = CrystalMap.empty((3, 4), step_sizes=(0.5, 2))
+        e.prop["q"] = np.arange(12) % 5
+        return e[:, 1:]
+
+    def h_prop_on_view(m):
+        v = m[m.iq > 2]
+        v.prop["extra"] = np.arange(v.size) + 7.0
+        return v
+
+    def h_phases_replaced(m):
+        m.phases = PhaseList({1: Phase("p", space_group=1, color="k"), 3: Phase("q", point_group="-1", color="g")})
+        return m
+    variants = [("slice-2d", lambda m: m[1:3, 1:4]), ("slice-rows", lambda m: m[1:]), ("slice-one-row", lambda m: m[1]),
+                ("slice-step", lambda m: m[::2, ::2]),
+                ("phase-name", lambda m: m["alpha"]), ("two-phase-names", lambda m: m["alpha", "beta"]),
+                ("indexed", lambda m: m["indexed"]), ("boolean", lambda m: m[m.iq > 4]),
+                ("boolean-and", lambda m: m[(m.iq > 2) & (m.grain != 1)]),
+                ("nested", lambda m: m[1:, :][m[1:, :].iq > 6]), ("nested-phase-slice", lambda m: m["beta"][0:2, :]),
+                ("deepcopy", lambda m: m.deepcopy()), ("deepcopy-of-view", lambda m: m[:, 1:].deepcopy()),
+                ("reloaded-then-sliced", h_reloaded_sliced), ("modified-after-construction", h_modified),
+                ("empty-then-sliced", h_empty), ("property-set-on-view", h_prop_on_view),
+                ("phases-replaced", h_phases_replaced)]
+    for i, (name, f) in enumerate(variants):
+        parent = base(i)
+        try:
+            child = f(parent)
+        except Exception as e:  # noqa
+            fail("harness:history:" + name, f"could not derive the map: {traceback.format_exc()[-300:]}", {"variant": name})
+            continue
+        if child is None or not np.any(child.is_in_data):
+            fail("harness:history:" + name, "derived map has no point in the data (generator problem)", {"variant": name})
+            continue
+        st("history:" + name)
+        rep = {"stratum": "history", "variant": name, "base": i, "how": "stratum_history() of tools/impl/c13.py: "
+               "parent = base(i); child = variant(parent); io.save(child); io.load", "is_in_data": child.is_in_data.tolist(),
+               "phase_id": child._phase_id.tolist()}
+        p0 = jrec(map_rec(parent))
+        cycle(child, f"history:{name}:", rep, tag="hist")
+        if jrec(map_rec(parent)) != p0:
+            fail(f"history:{name}:save-mutates-parent", "saving a derived map modified the map it was derived from", rep)
+
+
+# ---- 8. strings (names, units, property names) and structures outside the generator's lists -------------------
+def stratum_phase_data():
+    rot = np.array([[0.36, 0.48, -0.8], [-0.8, 0.6, 0.0], [0.48, 0.64, 0.6]])
+    strings = [" lead", "trail ", "two\nlines", "tab\there", "n" * 300, "\U0001d6fc-Ti", "a\\b", "quote\"'", "%s{}",
+               "é combining", "中文", "."]
+    lattices = [("base-rotated", lambda: Lattice(base=np.diag([3.0, 4.0, 5.0]) @ rot)),
+                ("rhombohedral", lambda: Lattice(4, 4, 4, 60, 60, 60)),
+                ("obtuse-triclinic", lambda: Lattice(3, 4, 5, 110, 115, 100)),
+                ("baserot-given", lambda: Lattice(3, 4, 5, 90, 90, 120, baserot=rot)),
+                ("large-cell", lambda: Lattice(500, 200.5, 300.25, 90, 95, 90)),
+                ("small-cell", lambda: Lattice(0.05, 0.06, 0.07, 90, 90, 90))]
+    atomsets = [("isotropic-U-zero-occupancy-outside-cell",
+                 lambda: [Atom("Fe", [-0.25, 1.5, 0.3], occupancy=0.0, Uisoequiv=0.02),
+                          Atom("O2-", [0.1, 0.2, 0.3], label="L" * 40, U=np.diag([0.01, 0.02, 0.03]))]),
+                ("120-atoms", lambda: [Atom("C", [t / 200, (t % 7) / 7, 0], label="L%d" % t, occupancy=1 - t / 500)
+                                       for t in range(120)]),
+                ("empty-element-and-label", lambda: [Atom("", [0, 0, 0], label=""), Atom("D", [0.5, 0.5, 0.5])])]
+    for i in range(len(strings)):
+        lname, lat = lattices[i % len(lattices)]
+        aname, ats = atomsets[i % len(atomsets)]
+        s = strings[i]
+        pname = strings[(i + 5) % len(strings)]
+        unit = strings[(i + 3) % len(strings)]
+        propname = strings[(i + 7) % len(strings)]
+        n = 3 + i % 3
+        pl = PhaseList({4: Phase(s, space_group=[1, 2, 75, None][i % 4], structure=Structure(atoms=ats(), lattice=lat())),
+                        12: Phase(pname + "#2", point_group="m-3m")})
+        prop = {} if propname == "." else {propname: np.arange(n) * 1.0}    # "." is the HDF5 name of the group itself
+        x = CrystalMap(Rotation(plain_quats(n)), phase_id=np.array([4, 12, 4, 12, 4])[:n], phase_list=pl, prop=prop,
+                       scan_unit=unit, is_in_data=None if i % 2 else partial_mask(n, i))
+        st("phasedata:lattice-" + lname)
+        st("phasedata:atoms-" + aname)
+        cycle(x, "phasedata:", {"stratum": "phasedata", "phase_name": s, "second_phase_name": pname + "#2",
+                                "scan_unit": unit, "property_name": propname, "lattice": lname, "atoms": aname,
+                                "how": "stratum_phase_data() of tools/impl/c13.py, i = %d" % i}, tag="pd")
+
+
+EXTRA = [("phasedata", stratum_phase_data), ("entry", stratum_entry), ("propdtype", stratum_prop_dtype), ("coords", stratum_coords),
+         ("symall", stratum_sym_all), ("notindexed", stratum_not_indexed), ("rotshape", stratum_rotshape),
+         ("history", stratum_history)]
+
 if ONLY is not None:
     specs = ONLY
 else:
@@ -587,6 +1157,15 @@ for k, s in enumerate(specs):
         cases.append(c)
     except Exception as e:  # noqa  (building the map itself failed: generator problem, reported loudly)
         fail("harness:build:" + type(e).__name__, f"could not build the map of a spec: {traceback.format_exc()[-400:]}", {"spec": s})
+if ONLY is None:
+    for name_, f_ in EXTRA:
+        if P.get("extra") is not None and name_ not in P["extra"]:
+            continue
+        try:
+            f_()
+        except Exception as e:  # noqa  (a stratum itself failed: generator problem, reported loudly)
+            fail("harness:extra:" + name_ + ":" + type(e).__name__,
+                 f"extra stratum {name_} stopped: {traceback.format_exc()[-600:]}", {"stratum": name_})
 
 # idempotence of the colour canonicalisation on its own outputs (external table)
 colors_used = sorted({p["color"] for c in cases for p in c["m"]["phases"].values()} | {"white", "w"})
